@@ -113,7 +113,7 @@ def check_C10(ctx, unit):
         # completeness + order per publishing store of a fresh node
         pc = 0
         for a in pubs:
-            v = a.value.strip() if a.value is not None else None
+            v = std_unwrap(a.value) if a.value is not None else None
             vd = resolve_alias(al, v.d["d"]) if (v is not None and v.kind == "DeclRefExpr") else None
             if vd not in fresh:
                 continue
@@ -127,7 +127,7 @@ def check_C10(ctx, unit):
             group = {vd}
             for (w, d, tail) in writes:
                 if d == vd and w.kind == "CXXMemberCallExpr" and w.args:
-                    x = w.args[0].strip()
+                    x = std_unwrap(w.args[0])
                     if x.kind == "DeclRefExpr" and resolve_alias(al, x.d["d"]) in fresh:
                         group.add(resolve_alias(al, x.d["d"]))
             for g in group:
@@ -163,7 +163,7 @@ def check_C10(ctx, unit):
                 old_linked = False
                 for (w, d, tail) in writes:
                     if d == vd and tail[0] == "links" and w.kind == "CXXMemberCallExpr" and w.args:
-                        x = w.args[0].strip()
+                        x = std_unwrap(w.args[0])
                         if x.kind == "DeclRefExpr" and resolve_alias(al, x.d["d"]) not in fresh and f.dominates(w.id, a.node.id):
                             old_linked = True
                 if not old_linked:
@@ -314,7 +314,7 @@ def check_C09(ctx, unit):
                     continue
                 ok, why = False, ""
                 if idx.kind == "CXXMemberCallExpr" and idx.callee and idx.callee["n"] == "idx_of":
-                    karg, darg = idx.args[0].strip(), idx.args[1]
+                    karg, darg = std_unwrap(idx.args[0]), idx.args[1]
                     # depth must be Y.depth (alias-resolved) or the value assigned to fresh Y.depth
                     dp = path(darg)
                     depth_ok = False
@@ -354,7 +354,7 @@ def check_C09(ctx, unit):
                 if not ok:
                     ix = RA.resolve_local(f, n.children[1], inits)
                     if ix.kind == "CXXMemberCallExpr" and ix.callee and ix.callee["n"] == "idx_of":
-                        ka = ix.args[0].strip()
+                        ka = std_unwrap(ix.args[0])
                         dp = path(ix.args[1])
                         ok = ka.kind == "DeclRefExpr" and ka.d["d"] in kparam and bool(dp) and dp[-1] == "depth"
                 ctx.inst("E.index-of-own-depth", "%s: mask bit #%d" % (f.uq, i + 1), ok, n.loc,
@@ -362,11 +362,9 @@ def check_C09(ctx, unit):
             # descent signature
             sig = {"prefix": set(), "leaf": set(), "key": set()}
             cursor = None
-            for blk in f.blocks.values():
-                if blk.cond is None:
-                    continue
-                c = f.node(blk.cond)
-                for x in c.walk():
+            # the tests may sit in a branch condition or be captured in a bool local first: look at every comparison
+            for c in [None]:
+                for x in f.all_nodes():
                     if x.kind == "BinaryOperator" and x.op in ("==", "!="):
                         l, r = x.children
                         for a, b in ((l, r), (r, l)):
